@@ -3,9 +3,11 @@
 set -e
 cd "$(dirname "$0")/.."
 id=$1
+if [ -n "$(git status --porcelain)" ]; then echo "working tree not clean: commit first"; exit 1; fi
 branch=$(git -C /work/$id rev-parse --abbrev-ref HEAD)
 git fetch -q /work/$id $branch
-git merge --no-commit --no-ff FETCH_HEAD || true
+git merge --no-commit --no-ff FETCH_HEAD || echo "(merge reported conflicts; resolving generated files)"
+git rev-parse -q --verify MERGE_HEAD >/dev/null || git merge-base --is-ancestor FETCH_HEAD HEAD || { echo "MERGE DID NOT START"; exit 1; }
 # generated / merged-by-tool files: always ours / regenerated
 for f in lean/NemoVerif.lean lean/Driver/Main.lean; do git rm -q --cached $f 2>/dev/null || true; done
 git checkout HEAD -- evidence/C04.json 2>/dev/null || true
